@@ -606,13 +606,15 @@ def aux_and_sender(P, E, chk):
             if not (v.get("k") == "Mem" and v["field"] == "id"):
                 continue
             nd += 1
-            hk = pp(sk(sk(node["a"][0])["a"][0]))        # the holder: users[u].q / users[u].q_sendrealsoon
+            hx = sk(sk(node["a"][0])["a"][0])
+            hk = pp(hx)                                   # the holder: users[u].q / users[u].q_sendrealsoon
+            hsep = "->" if (hx.get("t") or {}).get("k") == "ptr" else "."
             ik = pp(sk(v["a"][0]))                        # the incoming query
             sep = "->" if (sk(v["a"][0]).get("t") or {}).get("k") == "ptr" else "."
             an = an or E.analysis(f)
             ds = an.before_node(node["n"]) or []
-            okt = bool(ds) and all(guard.d_holds(d, "==", ik + sep + "type", hk + ".type") for d in ds)
-            names = (ik + sep + "name", hk + ".name")
+            okt = bool(ds) and all(guard.d_holds(d, "==", ik + sep + "type", hk + hsep + "type") for d in ds)
+            names = (ik + sep + "name", hk + hsep + "name")
 
             def exact(d):
                 for g in d:
